@@ -69,6 +69,9 @@ fn disturb(e: &mut Emulator<VHost>) {
     e.verif_cpu().regs.verif_set(&d);
     e.verif_cpu().halted = kani::any();
     e.verif_cpu().skip_interrupt = kani::any();
+    let pf: u8 = kani::any();
+    kani::assume(pf == 0 || pf == 0xDD || pf == 0xFD || pf == 0xED);
+    e.verif_cpu().verif_set_active_prefix(pf);
 }
 
 fn sna_case(machine: ZXMachine, len: usize, fail_at: usize) {
@@ -132,34 +135,40 @@ macro_rules! sna_h {
 // C14: every header, every prior CPU state, matching model, healthy asset
 sna_h!(sna_header_48k, sna_case(ZXMachine::Sinclair48K, 49179, usize::MAX));
 sna_h!(sna_header_128k, sna_case(ZXMachine::Sinclair128K, 131103, usize::MAX));
-// C14/C15: model mismatch and truncated files (every machine x size class)
-sna_h!(sna_reject, {
-    let len: usize = kani::any();
-    kani::assume(len == 49179 || len == 131103 || len == 147487 || len < 64);
-    let machine = any_machine();
-    kani::assume(len < 49179 || (len > 49179) != (machine == ZXMachine::Sinclair128K));
-    sna_case(machine, len, usize::MAX)
+// C14/C15: model mismatch and truncated files: every machine x size class (concrete cases, the
+// header bytes stay symbolic; a symbolic size made the run infeasible: 12 GB)
+sna_h!(sna_rejects, {
+    let cases: [(bool, usize); 8] = [(false, 131103), (false, 147487), (true, 49179), (false, 49178), (true, 49178),
+                                     (false, 27), (true, 26), (false, 0)];
+    let mut i = 0;
+    while i < 8 {
+        let m = if cases[i].0 { ZXMachine::Sinclair128K } else { ZXMachine::Sinclair48K };
+        sna_case(m, cases[i].1, usize::MAX);
+        i += 1;
+    }
 });
-// C15: a read/seek failure injected at any of the first calls (48K and 128K files)
-sna_h!(sna_fault_48k, {
-    let k: usize = kani::any();
-    kani::assume(k < 8);
-    sna_case(ZXMachine::Sinclair48K, 49179, k)
+// C15: a read/seek failure injected at each of the first 8 asset calls
+sna_h!(sna_faults_48k, {
+    let mut k = 0;
+    while k < 8 {
+        sna_case(ZXMachine::Sinclair48K, 49179, k);
+        k += 1;
+    }
+});
+sna_h!(sna_faults_128k, {
+    let mut k = 0;
+    while k < 8 {
+        sna_case(ZXMachine::Sinclair128K, 131103, k);
+        k += 1;
+    }
 });
 
-/// C15 (+C14 for Z80R), SZX: header + ONE block whose id, declared size, real length (<= 40) and
-/// content are symbolic, any machine id, any prior CPU state, injected asset fault: the loader
-/// returns Ok or Err and never panics / indexes out of range / over-allocates.
-/// BOUNDED: one block, <= 40 data bytes, stored (not zlib) RAM pages, stand-in pages.
-#[kani::proof]
-#[kani::unwind(42)]
-#[kani::stub(libm::sqrt, sqrt_stub)]
-#[kani::stub(crate::zx::sound::mixer::ZXMixer::process, mixer_process_stub)]
-#[kani::stub(crate::zx::video::screen::ZXScreen::process_clocks, screen_process_clocks_stub)]
-#[kani::stub(crate::zx::controller::ZXController::refresh_memory_dependent_devices, refresh_stub)]
-#[kani::stub(crate::zx::memory::ZXMemory::ram_page_data, page_stub)]
-#[kani::stub(crate::zx::memory::ZXMemory::ram_page_data_mut, page_mut_stub)]
-fn szx_one_block() {
+/// C15 (+C14 for Z80R), SZX: header + ONE block. Block id and sizes are enumerated concretely
+/// (8 ids x declared size / real length in {0, min-1, min, 40} incl. a declared size larger than
+/// the file); block content, machine id byte and prior CPU state are symbolic: the loader returns
+/// Ok or Err and never panics / indexes out of range / over-allocates.
+/// BOUNDED: one block, <= 40 data bytes, stored (not zlib) RAM pages, 4-byte stand-in pages.
+fn szx_case(which: usize, size: u32, datalen: usize) {
     let machine = ZXMachine::Sinclair48K;
     let mut e = Emulator::<VHost>::new(settings(machine, true, true, false), VContext).ok().unwrap();
     disturb(&mut e);
@@ -168,31 +177,26 @@ fn szx_one_block() {
     data[1] = b'X';
     data[2] = b'S';
     data[3] = b'T';
-    // block id: one of the interpreted ids or anything else
-    let which: u8 = kani::any();
-    let ids: [[u8; 4]; 7] = [*b"Z80R", *b"SPCR", *b"AY\0\0", *b"KEYB", *b"AMXM", *b"CRTR", *b"RAMP"];
-    if which < 7 {
-        let id = ids[which as usize];
-        data[8] = id[0];
-        data[9] = id[1];
-        data[10] = id[2];
-        data[11] = id[3];
-    }
+    let ids: [[u8; 4]; 8] = [*b"Z80R", *b"SPCR", *b"AY\0\0", *b"KEYB", *b"AMXM", *b"CRTR", *b"RAMP", *b"JUNK"];
+    let id = ids[which];
+    data[8] = id[0];
+    data[9] = id[1];
+    data[10] = id[2];
+    data[11] = id[3];
+    data[12] = size as u8;
+    data[13] = (size >> 8) as u8;
+    data[14] = (size >> 16) as u8;
+    data[15] = (size >> 24) as u8;
     if which == 6 {
-        kani::assume(data[16] & 1 == 0); // stored page (zlib inflate is an assumed dependency)
+        data[16] &= 0xFE; // stored page (zlib inflate is an assumed dependency)
     }
-    let len: usize = kani::any();
-    kani::assume(len <= 56);
+    let len = 16 + datalen;
     let mut f = Small::<56> { data, len, pos: 0, fail_at: usize::MAX, calls: 0 };
     let r = e.load_snapshot(Snapshot::Szx(&mut f));
-    let size = (data[12] as u32) | ((data[13] as u32) << 8) | ((data[14] as u32) << 16) | ((data[15] as u32) << 24);
-    if len < 8 {
-        kani::assert(r.is_err(), "C15: truncated SZX header is an error");
-    }
-    if len >= 16 && (size as usize) > len - 16 {
+    if (size as usize) > datalen {
         kani::assert(r.is_err(), "C15: a block larger than the rest of the file is rejected (no over-allocation)");
     }
-    if r.is_ok() && which == 0 && len >= 16 + 37 && size >= 37 && (data[6] == 2) == (machine == ZXMachine::Sinclair128K) {
+    if r.is_ok() && which == 0 && size >= 37 {
         let b = &data[16..];
         let g = e.verif_cpu().regs.verif_get();
         kani::assert(g.f == b[0] && g.a == b[1] && g.c == b[2] && g.b == b[3] && g.e == b[4] && g.d == b[5]
@@ -207,7 +211,35 @@ fn szx_one_block() {
             "C14.szx Z80R EI-pending / halted flags");
         kani::assert(e.verif_ctl().frame_clocks < machine.specs().clocks_frame, "C15: frame clock stays inside the frame");
     }
-    kani::cover!(r.is_ok() && which == 0);
-    kani::cover!(r.is_ok() && which == 6);
-    kani::cover!(r.is_err());
 }
+
+macro_rules! szx_h {
+    ($name:ident, $which:expr, $min:expr) => {
+        #[kani::proof]
+        #[kani::unwind(42)]
+        #[kani::stub(libm::sqrt, sqrt_stub)]
+        #[kani::stub(crate::zx::sound::mixer::ZXMixer::process, mixer_process_stub)]
+        #[kani::stub(crate::zx::video::screen::ZXScreen::process_clocks, screen_process_clocks_stub)]
+        #[kani::stub(crate::zx::controller::ZXController::refresh_memory_dependent_devices, refresh_stub)]
+        #[kani::stub(crate::zx::memory::ZXMemory::ram_page_data, page_stub)]
+        #[kani::stub(crate::zx::memory::ZXMemory::ram_page_data_mut, page_mut_stub)]
+        fn $name() {
+            let min: u32 = $min;
+            szx_case($which, 0, 0);
+            if min > 0 {
+                szx_case($which, min - 1, (min - 1) as usize);
+            }
+            szx_case($which, min, min as usize);
+            szx_case($which, 40, 40);
+            szx_case($which, 0x8000_0000, 40);
+        }
+    };
+}
+szx_h!(szx_z80r, 0, 37);
+szx_h!(szx_spcr, 1, 8);
+szx_h!(szx_ay, 2, 18);
+szx_h!(szx_keyb, 3, 5);
+szx_h!(szx_amxm, 4, 1);
+szx_h!(szx_crtr, 5, 37);
+szx_h!(szx_ramp, 6, 7);
+szx_h!(szx_unknown, 7, 0);
